@@ -762,7 +762,57 @@ def without_rejected(case, block):
     return c
 
 
+def without_one(case, block, which):
+    """the same case with only the [which]-th rejected frame-writing call removed; returns (case, op index) or None"""
+    rs = [l for l in block if l.startswith("r ")]
+    keep, k, seen, idx = [], 0, 0, None
+    for l in case.lines:
+        if l.startswith("o "):
+            r = rs[k] if k < len(rs) else None
+            if r is not None and r.startswith("r err") and not l.startswith("o fin") and not l.startswith("o ff"):
+                if seen == which:
+                    idx = k
+                    seen += 1
+                    k += 1
+                    continue
+                seen += 1
+            k += 1
+        keep.append(l)
+    if idx is None:
+        return None
+    c = case.clone("%s_w1_%d" % (case.id, which))
+    c.lines = keep
+    return c, idx
+
+
+def extra_C05_single(eng, cases):
+    """remove ONE rejected call at a time: every other call (accepted or rejected) must keep its result and
+    the file must not change.  (Removing all rejected calls at once, below, cannot see a change that turns a
+    later accepted call into a rejected one, because that call is then removed as well.)"""
+    alt = []
+    for c in cases:
+        b = eng.iblocks.get(c.id, [])
+        if not any(l.startswith("r err") for l in b) or any("panic" in l for l in b):
+            continue
+        for which in range(2):
+            r = without_one(c, b, which)
+            if r:
+                alt.append((c, r[0], r[1]))
+    ib2 = eng.run_impl([a for _, a, _ in alt])
+    eng.ev["evaluations"] += len(alt)
+    for c, a, idx in alt:
+        b1 = [l for l in eng.iblocks.get(c.id, []) if not l.startswith("s ")]
+        b2 = [l for l in ib2.get(a.id, []) if not l.startswith("s ")]
+        rs = [l for l in b1 if l.startswith("r ")]
+        kept = [r for k, r in enumerate(rs) if k != idx]
+        exp = [l for l in b1 if not l.startswith("r ")][:1] + kept + [l for l in b1 if l.startswith("sink")]
+        if exp != b2:
+            eng.fail(c, "removing ONE rejected call changes the result of another call, the statistics or the file bytes",
+                     dict(removed_op_index=idx, with_rejected=[x[:200] for x in exp[:12]], without=[x[:200] for x in b2[:12]]))
+
+
 def extra_C05(eng, cases):
+    extra_C05_single(eng, cases)
     alt = []
     for c in cases:
         b = eng.iblocks.get(c.id, [])
